@@ -247,8 +247,8 @@ func (g *Gen) compTokens(names []int, withVals bool, stale float64, omitRel floa
 	return strings.Join(parts, " ")
 }
 
-// enabled together with the D18 repair (see DESIGN.md)
-const dupRelChance = 0.0
+// duplicates are rejected since the D18/D19 repairs (see DESIGN.md §7)
+const dupRelChance = 0.03
 
 // dupRel: occasionally an additional relation target for a relation component already listed
 // (`rN>target`; unsafe path only). The API accepts it: the last target wins, see DESIGN.md N2.
